@@ -609,9 +609,12 @@ func c18SocksEnumerate(sh *evidence.Shard) {
 	// (2) chunkings: every <=2-cut chunking, with and without zero-length reads
 	p2 := sh.Part("socks-chunkings", "enum")
 	p2.Alphabet = alphabet
-	chunk := func(s []byte, auth bool) {
+	chunk := func(s []byte, auth bool, zeroUpTo int) {
 		c18Cuts2(len(s), func(cuts []int) {
 			for _, z := range []bool{false, true} {
+				if z && len(cuts) > zeroUpTo {
+					continue
+				}
 				if !mine() {
 					continue
 				}
@@ -620,25 +623,29 @@ func c18SocksEnumerate(sh *evidence.Shard) {
 		})
 	}
 	if th {
-		p2.Bounds = map[string]any{"streams": "full grammar product (auth configured) + star streams with AuthFunc nil", "cuts": "<=2, every offset", "zero_reads": []bool{false, true}}
+		p2.Bounds = map[string]any{"streams": "full grammar product with port 80 (auth configured): <=2 cuts at every offset, zero-length reads for <=1 cut; star streams (AuthFunc configured and nil): <=2 cuts with and without zero-length reads", "cuts": "<=2, every offset"}
 		for _, n := range negs {
 			for _, u := range ups {
 				for _, r := range reqs {
 					if expired {
 						break
 					}
-					chunk(c18Stream(n, u, r), true)
+					if r.port != 80 {
+						continue
+					}
+					chunk(c18Stream(n, u, r), true, 1)
 				}
 			}
 		}
 		for _, s := range c18Star() {
-			chunk(s, false)
+			chunk(s, true, 2)
+			chunk(s, false, 2)
 		}
 	} else {
 		p2.Bounds = map[string]any{"streams": "star streams (one grammar dimension varied from 5 base streams), AuthFunc configured and nil", "cuts": "<=2, every offset", "zero_reads": []bool{false, true}}
 		for _, s := range c18Star() {
-			chunk(s, true)
-			chunk(s, false)
+			chunk(s, true, 2)
+			chunk(s, false, 2)
 		}
 	}
 	// byte-at-a-time for the star streams
